@@ -72,6 +72,16 @@ def st_scenario(draw):
         if draw(st.integers(0, 2)) == 0:
             q['where'] = qgen.e_truthy(ctx)
         return {'A': A, 'B': None, 'a_names': a_names, 'b_names': None, 'q': q}
+    if kind == 4:
+        # a lone star item over a join in which records are emitted several times, with cells that need quoting
+        A2 = [[draw(st.sampled_from(['k1', 'k2'])), draw(st.sampled_from(['p,q', 'q"r', 'plain', 'x y']))] for _ in range(draw(st.integers(1, 4)))]
+        B2 = [[draw(st.sampled_from(['k1', 'k2'])), draw(st.sampled_from(['u,v', '"w"', 'z']))] for _ in range(draw(st.integers(1, 4)))]
+        an, bn = ['key', 'val'], ['j_key', 'j_val']
+        j = {'kind': draw(st.sampled_from(['JOIN', 'INNER JOIN'])), 'pairs': [{'l': {'f': {'py': 'a1', 'js': 'a1', 'idx': 0}}, 'r': {'f': {'py': 'b1', 'js': 'b1', 'idx': 0}}, 'eq': '==', 'swap': False}], 'table': 'b', 'and': 'and'}
+        q = {'type': 'select', 'items': [{'k': draw(st.sampled_from(['astar', 'bstar', 'star']))}], 'join': j}
+        if draw(st.integers(0, 2)) == 0:
+            q['order'] = {'keys': [qgen.mk("(a2 or '')", None, 'str')], 'desc': draw(st.booleans()), 'asc_kw': False}
+        return {'A': A2, 'B': B2, 'a_names': an, 'b_names': bn, 'q': q}
     if kind == 2:
         upd = draw(qgen.st_case_update(join_p=0))
         # rebuild on our rectangular table
